@@ -816,6 +816,32 @@ def run_sel(r, obs, ctl):
                                  "copy %r" % (spec, got, make_value(vr), exp))
                         break
                 del first
+            # ... and a list / tuple made of ready Selector objects, which the user goes on
+            # editing after the selector was built (a list of cuts extended for the next
+            # analysis): the built selector keeps its meaning
+            try:
+                obj = build(spec, True)
+                if isinstance(obj, (list, tuple)):
+                    parts = type(obj)(lena.flow.Selector(x, raise_on_error=False) for x in obj)
+                    built = lena.flow.Selector(parts, raise_on_error=False)
+                else:
+                    built = None
+            except Exception:  # pylint: disable=broad-except
+                built = None
+            if built is not None:
+                answers = [outcome(lambda: built(make_value(vr))) for vr in r["values"]]
+                if isinstance(parts, list):
+                    parts.append(lena.flow.Selector(lambda v: True))
+                    parts.insert(0, lena.flow.Selector(lambda v: False))
+                    del parts[1:2]
+                again = [outcome(lambda: built(make_value(vr))) for vr in r["values"]]
+                ctl.evals += 1
+                obs.count("specifications_edited_after_construction")
+                if again != answers:
+                    ctl.fail("selector-follows-later-edits-of-its-specification-list",
+                             "a selector built from a list of Selector objects (%r) answers %r; "
+                             "after the user's list was edited it answers %r"
+                             % (spec, answers, again))
     obs.nontrivial = len(seen) >= 2
     # a class leaf asks isinstance every time: a type registered with an ABC after the selector
     # has already seen it is selected from then on
@@ -1097,3 +1123,5 @@ RULE += (' Class leaves also include classes whose metaclass is not type (number
 RULE += (' Added: classes used as SelectContext predicates; one list / tuple specification object '
          'used for two selectors with different raise_on_error (and left unchanged); GroupBy used '
          'again after reset().')
+RULE += (' Added: a specification list made of ready Selector objects, edited by the user after the '
+         'selector was built.')
